@@ -239,6 +239,17 @@ func (g *Gen) deferDir() string {
 		v := rapid.Bool().Draw(g.t, "deferif")
 		return fmt.Sprintf(" @defer(if: %v, label: \"L%d\")", v, g.deferN)
 	default:
+		if rapid.IntRange(0, 2).Draw(g.t, "deferifnull") == 0 {
+			// 'if' of @defer is a nullable Boolean: a variable without default that is left out, or
+			// that is null, is valid input
+			g.nvar++
+			name := fmt.Sprintf("v%d", g.nvar)
+			g.varDefs = append(g.varDefs, "$"+name+": Boolean")
+			if rapid.Bool().Draw(g.t, "explicitnull") {
+				g.vars[name] = nil
+			}
+			return fmt.Sprintf(" @defer(if: $%s)", name)
+		}
 		v := rapid.Bool().Draw(g.t, "deferifv")
 		return fmt.Sprintf(" @defer(if: %s)", g.boolVar(v))
 	}
